@@ -206,6 +206,10 @@ def run(ctx: Ctx, env):
             ok = bool(paths)
             for x in paths:
                 calls = [ev for ev in x.events if ev.kind == "stub_call" and (ev.data["name"].startswith("visit_") or ev.data["name"] == "generic_visit")]
+                thrown = [ev for ev in x.events if ev.kind == "external_raise" and str(ev.data.get("what", "")).startswith("handler ")]
+                if thrown and x.outcome == "raise" and len(calls) == 1 and calls[0].data["name"] == want_name and \
+                        interp.exc_class(x.value) == thrown[0].data["exc"]:
+                    continue  # the handler's own exception leaves visit() unchanged
                 if x.outcome != "return" or len(calls) != 1 or calls[0].data["name"] != want_name or \
                         not (calls[0].data["args"] and getattr(calls[0].data["args"][0], "path", None) == "node"):
                     ok = False
